@@ -141,25 +141,35 @@ theorem bits_set_rejects_large (n : Nat) (h : 2 ^ 63 ≤ n) : Bits.set n = .err 
 
 /-! ### Part 5 — //encoding.csv -/
 
-/-- character level: encoding/csv's reader returns the records its writer was given, for every
-rectangular matrix of strings without "\r\n" inside a field and without rows `[]` / `[""]` -/
-theorem csv_text_rt_partial (m : List (List Key)) (h : csvOk m = true) :
-    Csv.parse (Csv.writeAll m) = .ok m := Csv.parse_writeAll m h
+/-- character level, for EVERY valid separator (`fieldNeedsQuotes comma field` tests the configured comma):
+encoding/csv's reader returns the records its writer was given, for every rectangular matrix of strings
+without "\r\n" inside a field and without rows `[]` / `[""]` -/
+theorem csv_text_rt_partial (sep : Nat) (hs : Csv.ValidSep sep) (m : List (List Key)) (h : csvOk m = true) :
+    Csv.parse sep (Csv.writeAll sep m) = .ok m := Csv.parse_writeAll sep hs m h
 
-/-- value level: `//encoding.csv.decode(//encoding.csv.encode(m)) = m` on that class (incl. the empty
-matrix, repaired) -/
-theorem csv_rt_partial (m : List (List Key)) (h : csvOk m = true) :
-    Csv.roundTrip (Csv.matrixR m) = .ok (Csv.matrixR m) := by
-  simp [Csv.roundTrip, Csv.encode, Csv.matrixOf_matrixR, Csv.decode, Csv.parse_writeAll m h]
+/-- value level: `decoder((comma: c))(encoder((comma: c))(m)) = m` on that class, for every valid separator
+(incl. the default `,` and the empty matrix, repaired) -/
+theorem csv_rt_partial (sep : Nat) (hs : Csv.ValidSep sep) (m : List (List Key)) (h : csvOk m = true) :
+    Csv.roundTrip sep (Csv.matrixR m) = .ok (Csv.matrixR m) := by
+  simp [Csv.roundTrip, Csv.encode, Csv.matrixOf_matrixR, Csv.decode, Csv.parse_writeAll sep hs m h]
 
-def csv_rt_full : Prop := ∀ m : List (List Key), Csv.roundTrip (Csv.matrixR m) = .ok (Csv.matrixR m)
+/-- a cell containing the configured separator is quoted: `[['a;b','c']]` with `;` is written `"a;b";c` -/
+theorem csv_separator_cell_quoted :
+    Csv.writeAll 59 [[[97, 59, 98], [99]]] = [34, 97, 59, 98, 34, 59, 99, 10] := by decide
+
+example : Csv.ValidSep 44 ∧ Csv.ValidSep 59 ∧ Csv.ValidSep 9 ∧ Csv.ValidSep 124 ∧ Csv.ValidSep 32 :=
+  ⟨⟨by decide, by decide, by decide⟩, ⟨by decide, by decide, by decide⟩, ⟨by decide, by decide, by decide⟩,
+   ⟨by decide, by decide, by decide⟩, ⟨by decide, by decide, by decide⟩⟩
+
+def csv_rt_full : Prop := ∀ m : List (List Key), Csv.roundTrip 44 (Csv.matrixR m) = .ok (Csv.matrixR m)
 
 /-- the three excluded shapes are really lost (KF-csv-stdlib): a row `[""]` disappears … -/
-theorem csv_blank_row_lost : Csv.roundTrip (Csv.matrixR [[[]]]) = .ok (Csv.matrixR []) := rfl
+theorem csv_blank_row_lost : Csv.roundTrip 44 (Csv.matrixR [[[]]]) = .ok (Csv.matrixR []) := rfl
 /-- … "\r\n" inside a field comes back as "\n" … -/
-theorem csv_crlf_changed : Csv.roundTrip (Csv.matrixR [[[97, 13, 10, 98]]]) = .ok (Csv.matrixR [[[97, 10, 98]]]) := rfl
+theorem csv_crlf_changed :
+    Csv.roundTrip 44 (Csv.matrixR [[[97, 13, 10, 98]]]) = .ok (Csv.matrixR [[[97, 10, 98]]]) := rfl
 /-- … and a ragged matrix is written but cannot be read back -/
-theorem csv_ragged_rejected : Csv.roundTrip (Csv.matrixR [[[97], [98]], [[99]]]) = .err := rfl
+theorem csv_ragged_rejected : Csv.roundTrip 44 (Csv.matrixR [[[97], [98]], [[99]]]) = .err := rfl
 
 theorem csv_rt_full_false : ¬ csv_rt_full := by
   intro h
